@@ -95,7 +95,25 @@ theorem St.t46_applyValue_M (s : St) (r e : Nat) (v : Outcome) (he : ∀ g, v = 
 
 /-! ## the closures of `waitEvent` -/
 
-theorem St.t46_onWaitDone_M (s : St) (w e : Nat) (hst : (s.wait w).started = true) (hfl : (s.wait w).flag = false) :
+theorem St.t46_D_registerTask_mem (s : St) (c : Nat) (t : Task) (x : Nat) (h : t ∈ (s.comp (s.rootOf c)).tasks) :
+    (s.registerTask c t).t46_D x = s.t46_D x := by
+  unfold St.t46_D
+  have h1 : (s.registerTask c t).t46_WW x = s.t46_WW x := rfl
+  have h2 : ∀ y, (s.registerTask c t).ev y = s.ev y := fun _ => rfl
+  rw [h1, h2]
+  unfold St.registerTask
+  rw [St.t46_WT_modComp]
+  have : addUniq (s.comp (s.rootOf c)).tasks t = (s.comp (s.rootOf c)).tasks := by
+    unfold addUniq; rw [if_pos (by simpa using h)]
+  dsimp only
+  rw [this]
+  split <;> omega
+
+/-- `_on_done`: either it sets the flag for the first time (the pending wait becomes the resumption task), or - a second
+    `_done` event of the awaited event - the resumption task is still registered and nothing changes -/
+theorem St.t46_onWaitDone_M (s : St) (w e : Nat) (hst : (s.wait w).started = true)
+    (hfl : (s.wait w).flag = true → (⟨(s.wait w).taskEvent, (s.wait w).task, some (s.wait w).parentGen⟩ : Task) ∈
+      (s.comp (s.rootOf (s.wait w).owner)).tasks) :
     St.T46M s (s.onWaitDone w e).2 := by
   have hw := St.t46_wait_started_lt s w hst
   unfold St.onWaitDone
@@ -107,11 +125,19 @@ theorem St.t46_onWaitDone_M (s : St) (w e : Nat) (hst : (s.wait w).started = tru
     have hS1 : St.T46M s ((s.modWait w fun x => { x with flag := true }).registerTask (s.wait w).owner
         ⟨(s.wait w).taskEvent, (s.wait w).task, some (s.wait w).parentGen⟩) := by
       intro x
-      refine Int.le_trans ?_ (St.t46_D_registerTask_ge _ _ _ _)
-      rw [St.t46_D_modWait, if_pos hw, Task.t46_wt_some,
-        WaitSt.t46_wt_of_pending (s.wait w) x (by simp [WaitSt.t46_pending, hst, hfl, hto]),
-        WaitSt.t46_wt_of_not _ x (by simp [WaitSt.t46_pending])]
-      split <;> omega
+      cases hflag : (s.wait w).flag with
+      | false =>
+        refine Int.le_trans ?_ (St.t46_D_registerTask_ge _ _ _ _)
+        rw [St.t46_D_modWait, if_pos hw, Task.t46_wt_some,
+          WaitSt.t46_wt_of_pending (s.wait w) x (by simp [WaitSt.t46_pending, hst, hflag, hto]),
+          WaitSt.t46_wt_of_not _ x (by simp [WaitSt.t46_pending])]
+        split <;> omega
+      | true =>
+        rw [St.t46_D_registerTask_mem (s.modWait w fun x => { x with flag := true }) _ _ x (hfl hflag),
+          St.t46_D_modWait, if_pos hw,
+          WaitSt.t46_wt_of_not (s.wait w) x (by simp [WaitSt.t46_pending, hflag]),
+          WaitSt.t46_wt_of_not _ x (by simp [WaitSt.t46_pending])]
+        omega
     split
     · split
       · split <;> t46m
